@@ -43,6 +43,7 @@ Cnt(n) == IF Wrap = 0 THEN n ELSE n % Wrap
 
 \* error numbers (errmsg.h) the model refers to by name
 NumNullResMem       == 290      \* a warning  (< 1000)
+NumDoubleDef        == 1000
 NumSymbolUndef      == 1010
 NumUnknownInstr     == 1200
 NumNoRestoreFrame   == 1460
@@ -51,6 +52,7 @@ NumMissingEndSect   == 1485
 NumOpenStruct       == 1551
 NumOpenMacro        == 1800
 NumOpenREPT         == 1803
+NumDoubleMacro      == 1815
 NumUnknownFunction  == 1860
 NumInvString        == 1970
 NumExpectedError    == 2130
